@@ -309,6 +309,70 @@ def awaited_result_switches(body, call):
 RESULT_ADAPTERS = ("Result::<T, E>::map", "Result::<T, E>::map_err", "Result::<T, E>::inspect", "Result::<T, E>::inspect_err")
 
 
+def closure_envs(f, b):
+    """closures built in body b: list of (closure body, {captured name: term in b})"""
+    from ..core import subst as _subst
+    out = []
+    for bb, j, s in b.assigns():
+        rv = s["rv"]
+        if bb in b.reachable and "agg" in rv and rv["agg"]["kind"] == "closure" and rv["agg"].get("def") in f.bodies:
+            names = rv["agg"].get("fields", [])
+            env = {}
+            for k, op in enumerate(rv["ops"]):
+                if k < len(names):
+                    t = b.operand_term(op)
+                    env[names[k]] = t
+            out.append((f.bodies[rv["agg"]["def"]], env))
+    return out
+
+
+def calls_with_env(f, b, target):
+    """calls to `target` in b or in a closure built in b: list of (call, term(operand) -> term over b's parameters)"""
+    from ..core import subst as _subst
+    from . import outq as _outq
+    out = []
+    for c in _outq.calls_to(f, b, target):
+        out.append((c, lambda op, b=b: b.operand_term(op)))
+    for cb, env in closure_envs(f, b):
+        for c in _outq.calls_to(f, cb, target):
+            def tf(op, cb=cb, env=env):
+                t = cb.operand_term(op)
+                # by-reference captures are `*_ref__x`
+                m = {}
+                for k, v in env.items():
+                    m[k] = v
+                t = _subst(t, m)
+                return peel(t)
+            out.append((c, tf))
+    return out
+
+
+OK_KEEPING = ("Result::<T, E>::map_err", "Result::<T, E>::inspect", "Result::<T, E>::inspect_err")
+
+
+def ok_payload_source(t):
+    """t is the Ok payload of some Result r -- via `match r { Ok(v) => v, .. }`, `r?`, or through adapters that keep
+    the Ok payload (map_err / inspect*) -- returns r (peeled, adapters stripped), else None"""
+    from ..core import chain as _chain
+    t = peel(t)
+    r = None
+    if isinstance(t, tuple) and t[0] == "ok":
+        r = t[1]
+    else:
+        root, names = _chain(t)
+        if names == ["@Ok", "0"]:
+            r = root
+    if r is None:
+        return None
+    for _ in range(6):
+        r = peel(r)
+        if is_call(r, *OK_KEEPING) and r[3]:
+            r = r[3][0]
+        else:
+            break
+    return peel(r)
+
+
 def is_result_of(x, bb, depth=0):
     """term x is the (awaited) result of the call at block bb, possibly merged with other results in a local
     (phi) or passed through Result::map / map_err (which keep Ok/Err-ness)"""
@@ -327,6 +391,85 @@ def is_result_of(x, bb, depth=0):
         if is_call(x, *RESULT_ADAPTERS) and x[3]:
             return is_result_of(x[3][0], bb, depth + 1)
     return False
+
+
+def _raw_locals(o, out):
+    if isinstance(o, dict):
+        if "l" in o and "proj" in o:
+            out.add(o["l"])
+            for e in o["proj"]:
+                if isinstance(e, dict) and "index" in e:
+                    out.add(e["index"])
+            return
+        for v in o.values():
+            _raw_locals(v, out)
+    elif isinstance(o, list):
+        for v in o:
+            _raw_locals(v, out)
+
+
+def depends_on_local(code, rv, target, limit=400):
+    """the raw rvalue / operand `rv` of body `code` is computed from local `target` (def-use closure over the body)"""
+    seen = set()
+    work = set()
+    _raw_locals(rv, work)
+    work = list(work)
+    defs = code.defs()
+    n = 0
+    while work and n < limit:
+        n += 1
+        l = work.pop()
+        if l == target:
+            return True
+        if l in seen:
+            continue
+        seen.add(l)
+        for d in defs.get(l, []):
+            nxt = set()
+            if d[0] == "stmt":
+                _raw_locals(code.blocks[d[1]]["stmts"][d[2]]["rv"], nxt)
+            elif d[0] == "call":
+                _raw_locals(code.blocks[d[1]]["term"]["args"], nxt)
+            work.extend(nxt)
+    return False
+
+
+def upvar_feeds(f, hcode, cb):
+    """for a closure `cb` built in `hcode`: captured-by-&mut variable name -> set of (adt, field) that hcode stores a value
+    computed from that variable into"""
+    cap = {}
+    for bb, j, s in hcode.assigns():
+        rv = s["rv"]
+        if "agg" in rv and rv["agg"].get("def") == cb.name:
+            names = rv["agg"].get("fields", [])
+            for k, op in enumerate(rv["ops"]):
+                pl = op.get("move") or op.get("copy")
+                if pl is None or pl["proj"] or k >= len(names):
+                    continue
+                for dd in hcode.defs().get(pl["l"], []):
+                    if dd[0] == "stmt":
+                        rv2 = hcode.blocks[dd[1]]["stmts"][dd[2]]["rv"]
+                        if "ref" in rv2 and not rv2["ref"]["proj"]:
+                            cap[names[k].replace("_ref__", "")] = rv2["ref"]["l"]
+    out = {}
+    for nm, l in cap.items():
+        fs = set()
+        for (bb, j, dst, rv, s) in hcode.stores():
+            if bb not in hcode.reachable:
+                continue
+            last = None
+            for e in dst["proj"]:
+                if isinstance(e, dict) and "f" in e and e.get("name"):
+                    last = (e.get("of"), e["name"])
+            if last and depends_on_local(hcode, rv, l):
+                fs.add(last)
+        out[nm] = fs
+    return out
+
+
+def arm_values_for(a, adt, field):
+    """values an arm of the CONNACK property loop stores into captured variables that end up in `adt.field`"""
+    return [v for nm, v in a["stores"] if (adt, field) in a["feeds"].get(nm, ())]
 
 
 @cached
@@ -376,5 +519,6 @@ def connack_property_arms(f):
                                     val = cb.call_term(pb)
                             if val is not None and val[0] == "agg" and val[3] == "Ok":
                                 unconditional = False
-                out[v] = {"stores": stores, "unconditional": unconditional, "span": cb.line(tgt), "body": cb}
+                out[v] = {"stores": stores, "unconditional": unconditional, "span": cb.line(tgt), "body": cb,
+                          "feeds": upvar_feeds(f, hcode, cb)}
     return out
